@@ -28,7 +28,8 @@ Inductive shaop := SSet (script sha : string) | SGet (script : string) (observed
 
 Record case := mkcase {
   c_kind : nat;                 (* 0 redis wrapper(s) vs raw (one or several addresses, restarts), 1 kv store vs one
-                                   server, 2 breaker phases, 3 script cache stream *)
+                                   server, 2 breaker phases, 3 script cache stream,
+                                   4 per-command breaker acceptance runs (c_phases: one list per command) *)
   c_steps : list step;
   c_dump_w : list (string * string);   (* several addresses: keys prefixed by the index of their server *)
   c_dump_r : list (string * string);
@@ -154,6 +155,7 @@ Definition model_ok (c : case) : bool :=
       | _ => false
       end
   | 3%nat => sha_model [] (c_sha c)
+  | 4%nat => forallb (phase_ok C12_Gen.acceptable None) (c_phases c)
   | k => forallb (step_ok C12_Gen.acceptable k C12_Table.redis_table C12_Table.kv_table) (c_steps c) &&
          dump_eqb (c_dump_w c) (c_dump_r c)
   end.
@@ -171,6 +173,11 @@ Definition spec_ok (c : case) : bool :=
       | _ => false
       end
   | 3%nat => sha_spec [] (c_sha c)
+  | 4%nat =>
+      (* per-command runs on a fresh handle with the real breaker: every reply is nil / redis.Nil / context.Canceled,
+         each was reported to the breaker as a success, none was rejected, and the probe that ends the run works *)
+      forallb (fun run => phase_ok doc_acceptable None run && forallb (fun en => doc_acceptable (fst en)) run &&
+                          match rev run with (ENone, _) :: _ => true | _ => false end) (c_phases c)
   | k => forallb (step_ok doc_acceptable k redis_spec kv_spec) (c_steps c) &&
          dump_eqb (c_dump_w c) (c_dump_r c) && frozen_ok c && place_stable (c_place c)
   end.
